@@ -42,6 +42,13 @@ fn main() {
             runner::child_main(prop, tier, seed, shard, nshards);
             0
         }
+        Some("selftest") => match args.get(2).map(|s| s.as_str()) {
+            Some("determinism") => runner::selftest_determinism(tier_of(args.get(3)), seed_from_env()),
+            _ => {
+                eprintln!("usage: qsim selftest determinism [quick|thorough]");
+                2
+            }
+        },
         Some("replay") => runner::replay_main(args.get(2).expect("replay file")),
         Some("smoke") => {
             let src = args.get(2).cloned().unwrap_or_else(|| "p = @{ 42 }, !p".to_string());
